@@ -600,6 +600,33 @@ def gen_reg_ops(rng, n):
     return ops
 
 
+def module_defaults(ctx):
+    """the registry err.py builds at import time, read in a FRESH interpreter (nothing of this run has touched it), must be
+    the one the Lean side derives from the seven register calls (`Reg.moduleRegistry`, for which `module_state_wf` is proved)"""
+    import subprocess
+    import sys
+    import json as _json
+    code = ("import sys, json; sys.path.insert(0, %r); import biom.err as E; st = E.geterr(); "
+            "print(json.dumps({'order': list(st), 'state': sorted([k, v] for k, v in st.items()), "
+            "'calls': [E.geterrcall(k)(None) for k in st]}))" % core.REPO)
+    out = subprocess.run([sys.executable, "-c", code], capture_output=True, text=True, cwd="/")
+    case = {"module_defaults": "fresh interpreter"}
+    ctx.case(case, nontrivial=True)
+    if out.returncode != 0:
+        ctx.fail(case, "C20.module_defaults", ("module-defaults", "import-or-geterr-failed"), detail={"stderr": out.stderr[-400:]})
+        return
+    obs = _json.loads(out.stdout.strip().splitlines()[-1])
+    r = ctx.driver.ask({"module_defaults": {"order": obs["order"], "state": obs["state"]}})
+    ctx.count("module-defaults=compared")
+    # the property names the defaults nowhere, so a different default is a divergence of the model, not a violation —
+    # except that a default callback must be the silent one (an unset 'call' reaction does nothing)
+    if any(c is not None for c in obs["calls"]):
+        ctx.fail(dict(case, obs=obs), "C20.module_defaults", ("module-defaults", "default-callback-not-silent"))
+    elif not r["agree"]:
+        ctx.diverge(dict(case, obs=obs), "the profile built at import time differs from Reg.moduleRegistry", ("module-defaults",),
+                    detail={"model": r["model"]})
+
+
 def registry_stream(ctx):
     # fixed: the seven kinds of the module in their registration order, every pair of kinds firing together under
     # every pair of reactions (the kind that sorts first decides), restricted by *args, a kind registered twice,
@@ -959,6 +986,7 @@ def run(ctx):
                 ob["ev"]["kind"] = fk[0] if fk else "?"
             ctx.count("site=" + label.split("-")[0])
             check_prog(ctx, env, prog, ("real-table", "site:" + label), obs={"op": "seq", "a": oa, "b": ob})
+    module_defaults(ctx)
     registry_stream(ctx)
     # random nested programs
     n = 2500 if ctx.quick() else 120000
@@ -982,6 +1010,9 @@ def run(ctx):
 def replay(ctx, rec):
     env = Env()
     case = rec["case"]
+    if "module_defaults" in case:
+        module_defaults(ctx)
+        return
     if "reg" in case:
         run_registry(ctx, [st["op"] for st in case["reg"]], ("replay",))
         return
